@@ -149,8 +149,18 @@ def near_work(chunk):
                 if r != c[i]:
                     cand.add(c[:i] + r + c[i + 1:])
         cand.add(c + c)
-        for s in cand:
-            if s in seen or EC.match(s.strip()):
+        # call order: the valid code is normalised first, its near misses afterwards (a refusal must not depend on what was normalised
+        # before); 'twins' - near misses that differ from the code only in letter case or blanks - are tried after every code they stem from
+        try:
+            n0 = norm(c)
+        except Exception:
+            n0 = None
+        fold = ''.join(c.split()).upper()
+        for s in sorted(cand):
+            if EC.match(s.strip()):
+                continue
+            twin = ''.join(s.split()).upper() == fold
+            if s in seen and not twin:
                 continue
             seen.add(s)
             acc.n += 1
@@ -162,6 +172,13 @@ def near_work(chunk):
                 pass
             except Exception as e:
                 acc.bad('non-code-refused-with-%s' % type(e).__name__, dict(string=s), 'normalize_event_code(%r) raised %r, not ValueError' % (s, e))
+        if n0 is not None:
+            try:
+                n1 = norm(c)
+            except Exception as e:
+                n1 = 'raised %s' % type(e).__name__
+            if n1 != n0:
+                acc.bad('normal-form-depends-on-earlier-calls', dict(code=c), 'normalize(%r) = %r, after its refused near misses %r' % (c, n0, n1))
     for s in ['', ' ', 'XYZ', '100 metres', '4x', 'x100', 'DT1.5.5K', '٣٣٣x', 'H0', 'L10', 'SST', 'JT900', '1e3']:
         if not EC.match(s.strip()):
             acc.n += 1
